@@ -4,19 +4,16 @@ From Verif Require Import Lib.Bytes StateRes.Event StateRes.Kahn StateRes.V2 Sta
      StateRes.SubsetProofs StateRes.ChainProofs StateRes.ChainCompleteProofs StateRes.AuthDiffProofs StateRes.SubgraphProofs.
 Local Open Scope nat_scope.
 
-Lemma reach_selfmap authmap a b : auth_reach authmap a b -> selfmap authmap b.
-Proof. induction 1 as [a b S|a b c S R IH]; [eapply step_selfmap; exact S|exact IH]. Qed.
 
-Theorem auth_difference_v21_spec (shE : list event -> list event) authmap conflicted sets (rank : bytes -> nat) x :
+Theorem auth_difference_v21_spec (shE : list event -> list event) authmap conflicted sets x :
   (forall l, Permutation (shE l) l) ->
-  (forall a b, auth_step authmap a b -> rank (e_id b) < rank (e_id a)) ->
   (forall s o y, In s sets -> In o s -> find_event (e_id o) authmap = Some y -> y = o) ->
   (In x (auth_difference_new shE true authmap conflicted sets) <->
    spec_auth_difference authmap sets x \/ spec_conflicted_subgraph authmap conflicted sets x).
 Proof.
-  intros Hsh Hac Hcons.
+  intros Hsh Hcons.
   pose proof (fun y => auth_difference_new_is_spec authmap (fun l => l) (fun l => Permutation_refl l) conflicted sets y) as D.
-  pose proof (fun y => conflicted_subgraph_spec authmap conflicted sets rank y Hac Hcons) as S.
+  pose proof (fun y => conflicted_subgraph_spec authmap conflicted sets y Hcons) as S.
   unfold auth_difference_new in *. unfold complete_subgraph in S.
   set (d := diff_events _ _) in *.
   set (sg := fold_left (fun acc s => union_events acc (conflicted_subgraph authmap conflicted s)) sets []) in *.
